@@ -478,7 +478,11 @@ class RVData:
 
     def __copy__(self):
         return self.__class__(
-            t=self.t.copy(), rv=self.rv.copy(), rv_err=self.rv_err.copy()
+            t=self.t.copy(),
+            rv=self.rv.copy(),
+            rv_err=self.rv_err.copy(),
+            t_ref=False if self.t_ref is None else self.t_ref,
+            clean=False,
         )
 
     def copy(self):
@@ -490,12 +494,14 @@ class RVData:
                 t=self.t.copy()[slc],
                 rv=self.rv.copy()[slc],
                 rv_err=self.rv_err.copy()[slc][:, slc],
+                clean=False,
             )
         else:
             return self.__class__(
                 t=self.t.copy()[slc],
                 rv=self.rv.copy()[slc],
                 rv_err=self.rv_err.copy()[slc],
+                clean=False,
             )
 
     def __len__(self):
